@@ -298,7 +298,8 @@ class ParserEngine(ParserCore, CanParse):
         self.tracer.trace_match(self, literal)
 
         if not isinstance(literal, str):
-            self.state.append(literal)
+            if capture:
+                self.state.append(literal)
             return literal
         literal = str(literal)  # for type linters
 
